@@ -21,6 +21,7 @@ import (
 	"net"
 	"os"
 	"path/filepath"
+	"regexp"
 	"sort"
 	"strings"
 	"syscall"
@@ -98,7 +99,17 @@ type pair struct {
 	h string
 }
 
-func coqStr(s string) string { return "\"" + strings.ReplaceAll(s, "\"", "\"\"") + "\"%string" }
+var knownNames = map[string]bool{"<nil>": true, "<none>": true, "cid0": true, "cid1": true, "cid2": true, "default": true, "default.pod0": true, "default.pod1": true, "k8s-pod-network": true, "k8s-pod-network.cid0": true, "k8s-pod-network.cid1": true, "k8s-pod-network.cid2": true, "k8s-pod-network.default.pod0": true, "n.x": true, "n.x.cid0": true, "n.x.cid1": true, "n.x.cid2": true, "n.x.default.pod0": true, "net1": true, "net1.cid0": true, "net1.cid1": true, "net1.cid2": true, "net1.default.pod0": true, "node1": true, "ns1": true, "ns1.pod0": true, "ns1.pod1": true, "other-net.other-cid": true, "pod0": true, "pod1": true}
+
+var identRe = regexp.MustCompile(`[^A-Za-z0-9]`)
+
+// coqStr: the constants of coq/theories/C38/Names.v for the strings of the generator's universe, a literal otherwise
+func coqStr(s string) string {
+	if knownNames[s] {
+		return "N_" + identRe.ReplaceAllString(s, "_")
+	}
+	return "\"" + strings.ReplaceAll(s, "\"", "\"\"") + "\"%string"
+}
 func coqPairs(ps []pair) string {
 	xs := make([]string, len(ps))
 	for i, p := range ps {
